@@ -590,6 +590,21 @@ def check_buffer_discipline(run):
                         if cj[0] == "cmp" and cj[1] == ">=" and cj[2] == "this.m_avail" and cj[3].isdigit():
                             bound = max(bound or 0, int(cj[3]))
                     ok = idx is not None and bound is not None and idx < bound
+                    if not ok and idx is not None:
+                        # `if (m_avail < K) flush_buffer();` in front of the store leaves at least K bytes free (either the test
+                        # failed, or the flush - whose shape R06.4 fixes - emptied the buffer), as long as the cursor has not
+                        # been advanced since
+                        fg_, leafs_ = flush_guards(f, env)
+                        pos_ = {id(x_): i_ for i_, x_ in enumerate(ir.walk(f["body"]))}
+                        here_ = pos_.get(id(n), 0)
+                        for j_, k_, lp_ in fg_:
+                            at_ = pos_.get(id(leafs_[j_][0]), -1)
+                            if at_ < 0 or at_ > here_ or k_ <= idx:
+                                continue
+                            moved_ = any(x_.get("k") in ("MCall", "Call") and callee_name(x_) in ("update_buffer", "write_string") and at_ < pos_.get(id(x_), -1) < here_
+                                         for x_ in ir.walk(f["body"]))
+                            if not moved_:
+                                bound, ok = k_, True
                     run.ob("R06.4", "%s:m_p[%s]@%s" % (f["qn"].split("::")[-1] + "(" + ",".join(f["sig"]) + ")", idx,
                                                        "avail>=%s" % bound), ok, f, n["l"],
                            "store at offset %s guarded by m_avail >= %s" % (idx, bound) if ok else
@@ -684,6 +699,35 @@ def check_buffer_discipline(run):
                "the write and the reset happen in every state with staged bytes (guard %s)" % show_f(g) if okg else
                "flush_buffer writes only under %s, which is %s with bytes staged: staged bytes would stay in the buffer" % (
                    show_f(g), "false" if okg is False else "not decidable"))
+    # a flush_buffer() that reports a byte count reports the bytes it handed over: callers refuse to store when it says 0
+    if (fb.get("ret") or "void") != "void":
+        from .. import affine as _af
+        from ..affine import Lin as _Lin
+        capc = [v for v in facts.vars if v["qn"] == "CDNS::CdnsEncoder::BUFFER_SIZE" and isinstance((v.get("init") or {}).get("cv"), int)]
+        capn = capc[0]["init"]["cv"] if capc else 2048
+        P, B, A = _Lin.sym("this.m_p"), _Lin.sym("this.m_buffer"), _Lin.sym("this.m_avail")
+        verdict, whyr = True, "every return of flush_buffer() is the number of staged bytes it handed to the writer"
+        try:
+            paths_ = _af.explore(ir.stmts(fb["body"]), {}, lambda u_, env_, ev_, asm_: (u_.get("k") == "MCall"))
+            nret_ = 0
+            for outcome, env_, evs_, asm_ in paths_:
+                for e_ in evs_:
+                    if e_[0] != "return" or e_[1] is None:
+                        continue
+                    nret_ += 1
+                    staged_zero = _af.sign_of(P - B, asm_) == "==0"
+                    if staged_zero:
+                        if e_[1] != _Lin(0):
+                            verdict, whyr = False, "flush_buffer() reports %r bytes on the path with nothing staged" % e_[1]
+                    elif e_[1] not in (P - B, _Lin(capn) - A):
+                        verdict = False
+                        whyr = "flush_buffer() returns %r on a path that handed %r staged bytes to the writer: callers take 0 for `nothing could be " \
+                               "flushed` and refuse to store their item" % (e_[1], P - B)
+            if nret_ == 0:
+                verdict, whyr = None, "no value-returning path of flush_buffer() could be followed"
+        except _af.NotAffine as ex_:
+            verdict, whyr = None, "flush_buffer() cannot be followed (%s)" % ex_
+        run.ob("R06.4", "flush_buffer:reports-what-it-flushed", verdict, fb, fb["line"], whyr)
     # BUFFER_SIZE >= 9 and equals sizeof m_buffer
     bs = [v for v in facts.vars if v["qn"] == "CDNS::CdnsEncoder::BUFFER_SIZE"]
     rec = facts.record(ENC, rule="R06.4")
@@ -1111,8 +1155,8 @@ def check_always_emits(run, rule):
     n = 0
     for f in enc_fns(facts):
         nm = f["qn"].split("::")[-1]
-        if f.get("ret") != "unsigned long" or nm == "write_int":
-            continue
+        if f.get("ret") != "unsigned long" or nm in ("write_int", "flush_buffer"):
+            continue            # (flush_buffer is the sink; what it may report is R06.4's flush_buffer:reports-what-it-flushed)
         env = Env(f["body"])
         order = {id(x): i for i, x in enumerate(ir.walk(f["body"]))}
         emits = [order[id(x)] for x in ir.walk(f["body"]) if (x.get("k") == "Bin" and store_through_mp(x)) or
@@ -1154,6 +1198,13 @@ def check_always_emits(run, rule):
                     continue      # no space even after flush_buffer()
                 if a[0] == "cmp" and a[1] == "<=" and a[3] == "this.m_avail":
                     continue
+                flush_local = False
+                for nm_, d_ in env.defs.items():
+                    if nm_ in repr(a) and d_ is not None and isinstance(ir.unwrap_all_casts(d_), dict) and \
+                            callee_qn(ir.unwrap_all_casts(d_)) == "CDNS::CdnsEncoder::flush_buffer":
+                        flush_local = True
+                if ("this.flush_buffer()" in repr(a) or flush_local) and any(b_[0] == "cmp" and b_[1] == "<" and b_[2] == "this.m_avail" for b_ in conjuncts(g)):
+                    continue      # `m_avail < k && flush_buffer() == 0`: no space, and flushing freed none (R06.4 decides what flush_buffer reports)
                 extra.append(a)
             if extra:
                 bad += 1
